@@ -18,6 +18,7 @@ int w_bases_d(int null_diff, int kind, unsigned long ndel, unsigned long nins);
 int w_dm_added_removed_d(int null_diff, int kind, int decl_only, unsigned long nins, unsigned long ndel, int i0s, int i1s, int d0s, int d1s);
 int w_static_dm_d(int null_diff, int kind, int decl_only, unsigned long nins, unsigned long ndel, int i0s, int i1s, int d0s, int d1s);
 int w_virt_fn(int null_diff, int fmem, int smem, int fvirt, int svirt, unsigned long fo, unsigned long so);
+int w_crc(int null_diff, int kind, int fsym, int ssym, unsigned long fcrc, unsigned long scrc);
 #define POST(c) __CPROVER_assert(c, "postcondition: " #c)
 void h_parms(void)
 {
@@ -153,4 +154,15 @@ void h_virt_fn(void)
   int r = w_virt_fn(in_null, in_fm, in_sm, in_fv, in_sv, in_fo, in_so);
   POST((r != 0) == (!in_null && in_fm && in_sm && (in_fv != in_sv || in_fo != in_so)));
   CANARY_h_virt_fn;
+}
+/* A changed CRC (Linux kernel symbol version: the interface's type signature changed) on a function or variable:
+   both symbols carry a CRC (non-zero) and the two differ. */
+void h_crc(void)
+{
+  int in_null = nondet_int() != 0, in_kind = nondet_int(), in_fsym = nondet_int() != 0, in_ssym = nondet_int() != 0;
+  unsigned long in_fcrc = nondet_ulong(), in_scrc = nondet_ulong();
+  __CPROVER_assume(in_kind >= 0 && in_kind <= 6);
+  int r = w_crc(in_null, in_kind, in_fsym, in_ssym, in_fcrc, in_scrc);
+  POST((r != 0) == (!in_null && (in_kind == 2 || in_kind == 6) && in_fsym && in_ssym && in_fcrc != 0 && in_scrc != 0 && in_fcrc != in_scrc));
+  CANARY_h_crc;
 }
